@@ -1,6 +1,6 @@
 (* Properties/C13.v — Torrent files: total parsing, consistent geometry, identity preserved. *)
 From Coq Require Import String.
-From Storrent Require Import Base.Bytes Base.Bencode Model.Wire Model.Torfile Proof.Torfile Proof.TorSlice Model.TorWrite Proof.TorWriteRT.
+From Storrent Require Import Base.Bytes Base.Bencode Model.Wire Model.Torfile Proof.Torfile Proof.TorSlice Model.TorWrite Model.DepthLimiter Proof.TorWriteRT Proof.TopDepth.
 Open Scope N_scope.
 
 (* reading any byte string as a .torrent never crashes: no division by zero, no
@@ -79,3 +79,11 @@ Theorem c13_metadata_depth_limited : forall info g,
   metadata_complete info = MOk g -> exists v r k, bdecode info = BOk v r k /\ vdepth v <= max_bencode_depth.
 Proof. exact metadata_depth. Qed.
 Print Assumptions c13_metadata_depth_limited.
+
+(* The model's depth rule is the limiter's: for a file whose top-level dictionary the reader can take
+   apart, the model refuses it for its nesting exactly when protocol.LimitBencodeDepth, which
+   tor.ReadTorrent puts in front of the decoder, fails on it. *)
+Theorem c13_depth_rule_is_limiter : forall bs es, top_entries bs = Some es ->
+  lim_passes bs = negb (max_bencode_depth <? entries_depth es).
+Proof. exact torfile_depth_is_limiter. Qed.
+Print Assumptions c13_depth_rule_is_limiter.
